@@ -265,3 +265,128 @@ class BufferBatchesSpec(KernelSpec):
                 data = [I("i64" if kind == "Int" else "f64", d.v) for d in data]
             cols[name] = (kind, length, data, pres)
         return {"cols": cols, "length": vv["length"]}
+
+
+# ----------------------------------------------------------------------------------------------------
+# C13.c : catalogue wiring in InnerLocustDB::ingest_efficient (arithmetic-slice style data-flow obligation)
+# ----------------------------------------------------------------------------------------------------
+import re as _re
+
+
+class NewColumnWiringSpec(KernelSpec):
+    """Slice of InnerLocustDB::ingest_efficient from the `table_buffer.columns()` call to the `Table::new_column_names(..)` call:
+    the names handed to new_column_names (whose result becomes the rows of _meta_columns_<table>) are *all* column names of the
+    batch's table buffer - including columns that carry no values in this batch - because Table::ingest_homogeneous adds every
+    key of the batch to the in-memory name set, after which a name is never reported as new again."""
+    method = ("InnerLocustDB", None, "ingest_efficient")
+    dumps = ("main", "ser")
+    diff_cases = 0
+
+    def instantiations(self, tier):
+        return [{}]
+
+    def shapes(self, tier, inst):
+        # column kinds of the batch's table buffer
+        out = [("I64",), ("Empty",), ("I64", "Empty"), ("Empty", "Dense", "String")]
+        if tier == "thorough":
+            out += [("Sparse", "Empty", "Empty"), ("Mixed",), ()]
+        return out
+
+    def sym_inputs(self, inst, shape):
+        return {"v": [sym("i64", f"v{i}") for i in range(len(shape))]}, []
+
+    def explore(self, ctx, ex, fn, inst, shape, inp, pre):
+        from ..mirsym.models import hashmap_new, iter_next, iter_clone, as_iter, seq_of, deref_val
+        fn.parse()
+        dbg = {}
+        for local, name in fn.debug.items():
+            dbg.setdefault(name, local)
+        if "table_buffer" not in dbg:
+            raise interp.Unsupported("ingest_efficient: no local named table_buffer in the current source")
+        calls = ex.find_call_block(fn, r"(?:^|::)TableBuffer::columns$")
+        if len(calls) != 1:
+            raise interp.Unsupported(f"ingest_efficient: expected one TableBuffer::columns call, found {len(calls)}")
+        blk, term = calls[0]
+        tfs = ctx.src().struct_fields("TableBuffer")
+        if tfs is None or set(tfs) != {"len", "columns"}:
+            raise interp.Unsupported("TableBuffer{len, columns} not found")
+        cols = []
+        for i, kind in enumerate(shape):
+            if kind == "Empty":
+                d = Agg("enum", [], name="ColumnData", variant="Empty")
+            elif kind == "I64":
+                d = Agg("enum", [VecObj([inp["v"][i]], "i64")], name="ColumnData", variant="I64")
+            elif kind == "Dense":
+                d = Agg("enum", [VecObj([I("f64", 0)], "f64")], name="ColumnData", variant="Dense")
+            elif kind == "Sparse":
+                d = Agg("enum", [VecObj([Agg("tuple", [I("u64", 0), I("f64", 0)])])], name="ColumnData", variant="Sparse")
+            elif kind == "String":
+                d = Agg("enum", [VecObj([rstr(b"s")])], name="ColumnData", variant="String")
+            else:
+                d = Agg("enum", [VecObj([Agg("enum", [], name="AnyVal", variant="Null")])], name="ColumnData", variant="Mixed")
+            cols.append((rstr(b"c%d" % i), Agg("struct", [d], name="ColumnBuffer")))
+        named = {"len": I("u64", 1), "columns": hashmap_new(cols)}
+        tb = Agg("struct", [named[f] for f in tfs], name="TableBuffer")
+
+        def stop(ex_, st, fr, path, args, m):
+            it = as_iter(args[1])
+            if it is None:
+                raise interp.Unsupported("new_column_names: argument is not an iterator the executor understands")
+            it = iter_clone(it)
+            names = []
+            while True:
+                o = iter_next(ex_, st, it)
+                if o.variant == "None":
+                    break
+                el, lo, hi = seq_of(o.fields[0])
+                names.append(bytes(e.v for e in el[lo:hi]))
+            raise interp.StopSlice(names)
+        ex.stubs = [(_re.compile(r"(?:^|::)Table::new_column_names(?:::<.*>)?$"), stop)]
+        ex.havoc_unknown_calls = True
+        ex.prune_unreachable = True
+        ex.inline_in_slices = lambda f: bool(_re.search(r"TableBuffer::columns$|event_buffer::<impl[^>]*>::columns$|\{closure", f.name))
+        st = ex.start_at(fn, blk.name if hasattr(blk, "name") else blk, {dbg["table_buffer"]: Ref(Cell(tb))}, {}, pc=pre)
+        outs = ex.explore(st)
+        if not any(o.kind == "stop" for o in outs):
+            raise interp.Unsupported("catalogue wiring slice: the new_column_names call was not reached (vacuous)")
+        return outs
+
+    def post_stop(self, inst, shape, inp, o):
+        names = sorted(o.value)
+        want = sorted(b"c%d" % i for i in range(len(shape)))
+        return [("every column name of the batch - with or without values in this batch - is offered to Table::new_column_names (the catalogue rows are written from its result)", B(names == want))]
+
+    def post(self, inst, shape, inp, value, state=None):
+        return [("the slice ends at the new_column_names call", B(False))]
+
+    def panic_ok(self, inst, shape, inp, msg):
+        return B(False)
+
+    def random_inputs(self, rng, inst, shape):
+        return None
+
+    def native(self, inst, shape, inp):
+        return None
+
+    # under-constrained slice: a counterexample counts only if the public API shows a column missing from the catalogue
+    def api_check(self, inst, shape, conc, label):
+        from .. import replay
+        cols = {}
+        for i, kind in enumerate(shape):
+            cols[f"c{i}"] = {"Empty": []} if kind == "Empty" else {"I64": [7]} if kind in ("I64",) else {"Dense": [1.5]} if kind in ("Dense", "Sparse") else {"String": ["s"]} if kind == "String" else {"Mixed": [None]}
+        spec = {"steps": [{"ingest": {"t": cols}}, {"query": "SELECT column_name FROM _meta_columns_t"}]}
+        self._last_api = spec
+        steps, raw = replay.api_replay(spec)
+        if steps is None:
+            return False, "API replay did not run: " + raw[-200:]
+        q = steps[1]
+        if q.get("outcome") != "ok":
+            return True, f"SELECT column_name FROM _meta_columns_t: {q.get('outcome')} {q.get('error', '')}"
+        got = sorted(r[0][2:] for r in q["rows"] if r[0])
+        want = sorted(cols)
+        if got != want:
+            return True, f"after ingesting one batch with columns {sorted((c, list(v)[0]) for c, v in cols.items())} the catalogue _meta_columns_t lists {got}, expected {want}"
+        return False, f"API replay lists {got}: the slice's pre-state is not reachable that way"
+
+    def api_spec(self, inst, shape, conc):
+        return getattr(self, "_last_api", {})
